@@ -440,6 +440,7 @@ func walkAggregation(expr string, n *promParser.AggregateExpr) (src []Source) {
 			s.Type = AggregateSource
 			s.Aggregation = n
 			s.Operation = "topk"
+			s = limitedByK(s, n.Param)
 			src = append(src, s)
 		}
 	case promParser.BOTTOMK:
@@ -447,6 +448,7 @@ func walkAggregation(expr string, n *promParser.AggregateExpr) (src []Source) {
 			s.Type = AggregateSource
 			s.Aggregation = n
 			s.Operation = "bottomk"
+			s = limitedByK(s, n.Param)
 			src = append(src, s)
 		}
 		/*
@@ -462,6 +464,21 @@ func walkAggregation(expr string, n *promParser.AggregateExpr) (src []Source) {
 		*/
 	}
 	return src
+}
+
+// topk(k, ...) and bottomk(k, ...) return nothing when k is below one.
+func limitedByK(s Source, param promParser.Expr) Source {
+	for {
+		p, ok := param.(*promParser.ParenExpr)
+		if !ok {
+			break
+		}
+		param = p.Expr
+	}
+	if k, ok := param.(*promParser.NumberLiteral); !ok || k.Val < 1 {
+		s.AlwaysReturns = false
+	}
+	return s
 }
 
 func parseAggregation(expr string, n *promParser.AggregateExpr) (src []Source) {
